@@ -360,7 +360,9 @@ class MergeableConstraints(object):
 
 
     def _no_bnode_merging_strategy(self):
-        if len(self._shape_constraints) == 0 or self._shape_constraints[0].n_occurences < self._iri_constraint.n_occurences:
+        if len(self._shape_constraints) == 0 or \
+                (self._iri_constraint is not None and
+                 self._shape_constraints[0].n_occurences < self._iri_constraint.n_occurences):
             self._promote_to_dominant(self._iri_constraint)
         else:
             self._promote_to_dominant(self._shape_constraints[0])
